@@ -73,6 +73,7 @@ type State struct {
 	epoch  int  // bumped by every havoc-all, so untouched heap keys are fresh afterwards
 	suffix string // "'" in the second run of a self-composition: names of untouched heap keys
 	tainted bool  // some memory that can hold references has been forgotten (havoc) on this path
+	frontier string // lower bound of every reference existing now ("" = 0); see engine.go
 }
 
 func newState() *State {
@@ -91,6 +92,7 @@ func (s *State) clone() *State {
 		epoch:  s.epoch,
 		suffix: s.suffix,
 		tainted: s.tainted,
+		frontier: s.frontier,
 	}
 	for k, v := range s.vars {
 		n.vars[k] = v
@@ -214,6 +216,11 @@ func mergeStates(cond string, a, b *State, nBase int) *State {
 		r.epoch = b.epoch
 	}
 	r.tainted = a.tainted || b.tainted
+	if a.front() == b.front() {
+		r.frontier = a.frontier
+	} else {
+		r.frontier = ite(cond, a.front(), b.front())
+	}
 	// allocs: union
 	seen := map[string]bool{}
 	r.allocs = nil
